@@ -103,6 +103,7 @@ static void elim_case(const vh_args_t *a, int op) {
   int th = thr[vh_randint(0, 5)], heur = vh_randint(0, 1);
   static const char *nm[] = {"echelonize_naive", "echelonize_m4ri", "echelonize_pluq", "echelonize", "_echelonize_m4ri", "echelonize_m4ri"};
   if (op == E_TOP) full = 0;
+  if (force_vwide) full = 1;   /* (the full reduction is what applies the column permutation) */
   vh_begin(&e, nm[op]);
   vh_pi(&e, "full", full); vh_pi(&e, "k", k); vh_pi(&e, "heur", heur); vh_pi(&e, "thr", th);
   vh_opnd(&e, "A", 'b', A);
